@@ -317,7 +317,7 @@ class NSGCoordinator(GameCoordinator):
                 # find the new lowest networks
                 new_base = netaddr.IPNetwork(f"{fake.ipv4_private()}/{private_nets_sorted[0].mask}")
                 # store its new mapping
-                mapping_nets[private_nets[0]] = Network(str(new_base.network), private_nets_sorted[0].mask)
+                mapping_nets[private_nets_sorted[0]] = Network(str(new_base.network), private_nets_sorted[0].mask)
                 base = netaddr.IPNetwork(str(private_nets_sorted[0]))
                 is_private_net_checks = []
                 for i in range(1,len(private_nets_sorted)):
